@@ -312,7 +312,18 @@ def work(spec):
                         for framing in ('cl', 'chunked'):
                             app, seen = apps[102400]
                             run(res, app, seen, body, 'application/json', acc, framing, None, 102400)
-        core.add_sample(res, {'deep_nesting': [10, 100, 900, 1100, 5000, n]})
+        # long runs of one character inside part headers (quoted parameter values that are never closed, or closed by something
+        # unexpected): nothing in the header parsing may take more than linear time
+        for ch in (b'\\', b'"', b';', b'=', b' ', b'a'):
+            for runlen in (8, 24, 64, 512):
+                for tail in (b'', b'"', b'"x', b';'):
+                    for param in (b'name', b'filename'):
+                        hdr = b'Content-Disposition: form-data; name="n"; ' + param + b'="' + ch * runlen + tail
+                        body = b'--BND\r\n' + hdr + b'\r\n\r\nv\r\n--BND--\r\n'
+                        for acc in ('forms', 'files'):
+                            app, seen = apps[102400]
+                            run(res, app, seen, body, 'multipart/form-data; boundary=BND', acc, 'cl', b'BND', 102400)
+        core.add_sample(res, {'deep_nesting': [10, 100, 900, 1100, 5000, n], 'header_runs': [8, 24, 64, 512]})
     elif kind == 'json':
         for i, body in enumerate(strings(JS_ALPHA, n, a)):
             for acc in ('json', 'forms'):
